@@ -79,6 +79,9 @@ func main() {
 	case "C04", "C05":
 		runSchedSuite(rep, *tier, *seed, prop)
 		closureCtxScenarios(rep, prop)
+		if prop == "C04" {
+			c04DeadlineScenarios(rep, prop)
+		}
 		if prop == "C05" {
 			runCalleeReplay(rep, prop)
 		}
